@@ -26,8 +26,16 @@ import random
 
 from ..core import Ctx, MachineryError, digest
 from ..forkpool import prepare_imports, run_cases
-from ..lattice import ALL, EMBEDDINGS, OffLattice
+from fractions import Fraction as F
+
+from ..lattice import ALL as _ALL8, EMBEDDINGS as _EMB, Emb, OffLattice
 from .. import tlc
+
+# the eight embeddings of harness/lattice.py plus a local one in VERY small units (a layout scaled by 1e-12): the
+# tolerances of find_location must come from the design (1e-12 x smallest side), not from an absolute constant --
+# at this scale any absolute slack (almost_eq's default 1e-11) is wider than the whole lattice
+EMBEDDINGS = dict(_EMB, pico=Emb("pico", F(1, 10 ** 12)))
+ALL = list(_ALL8) + ["pico"]
 
 ROLE = {"TRUNK": "T", "NORTH": "N", "SOUTH": "S", "EAST": "E", "WEST": "W", "NO_POLYGON": "X"}
 EVENTS_PER_ROUND = 60000   # observed calls per round of (run real code -> TLC verdicts); bounds memory and batch size
@@ -172,7 +180,7 @@ def run_case(case):
     base = case["rects"]
     orders = case["orders"] if "orders" in case else _orders(base)
     for k, lst in enumerate(orders):
-        if case["rotate"]:      # two embeddings per order, all eight over the orders of the case
+        if case["rotate"]:      # two embeddings per order, all nine over the orders of the case
             j = k + case.get("salt", 0)
             embs = [ALL[j % len(ALL)], ALL[(j + len(ALL) // 2) % len(ALL)]]
         else:
@@ -193,7 +201,7 @@ def run_case(case):
 # ----------------------------------------------------------------------------------------- cases
 def tlc_cases(printed):
     """Every multiset emitted by TLC, in every order, fresh and after history.  Up to three rectangles: every order
-    under all eight embeddings; four rectangles: each order under two embeddings (all eight over the orders)."""
+    under all nine embeddings; four rectangles: each order under two embeddings (all nine over the orders)."""
     cases = []
     for i, c in enumerate(printed):
         big = len(c["rects"]) >= 4
@@ -379,10 +387,10 @@ def run(ctx: Ctx) -> int:
     ctx.extra["embeddings"] = ALL
     ctx.extra["cases"] = {"tlc_multisets": len(uniq), "random": len(cases) - len(uniq)}
     ctx.assumptions += [
-        "float dimension sampled by 8 embeddings of the integer lattice (steps 1, 1.0, 1/2, 1/10, 1/3, 1e3, 1e-3, 0.1+37.3), not enumerated",
+        "float dimension sampled by 9 embeddings of the integer lattice (steps 1, 1.0, 1/2, 1/10, 1/3, 1e3, 1e-3, 0.1+37.3, 1e-12), not enumerated",
         "Rectangle tolerances as a fresh process loading the design defines them (1e-12 x smallest side; the netlist route lets Netlist define them)",
-        "every TLC-enumerated multiset is run in every order, fresh and after history; lists of up to 3 rectangles under all 8 "
-        "embeddings per order, lists of 4 under 2 of the 8 per order (all 8 over the orders of one multiset)",
+        "every TLC-enumerated multiset is run in every order, fresh and after history; lists of up to 3 rectangles under all 9 "
+        "embeddings per order, lists of 4 under 2 of the 9 per order (all 9 over the orders of one multiset)",
         "universes: quick 3x2 lattice <= 3 rectangles and 4x4 <= 2; thorough 3x3 <= 3, 3x2 <= 4 and 4x4 <= 2; random orthogons and near misses up to 8 rectangles on a 40x40 lattice",
         "the netlist route (Netlist -> Module.create_stog / has_stog) is taken for one order of every multiset under 2 embeddings",
         "'every other rectangle' is read position-wise: a repeated rectangle is another rectangle",
